@@ -56,6 +56,8 @@ var verifCastProgs = []verifCastProg{
 var verifCastPathProgs = []struct{ name, code, path string }{
 	{"list-element", "fn main() {\n  let o = new { l: [1, 2] } as { ? };\n  try {\n    let m = o.get(\"l\").unwrap() as [str];\n    println(\"not reached\", m);\n  } catch e {\n    println(e.message);\n  }\n}\n", "[0]"},
 	{"object-field", "fn main() {\n  let o = new { inner: new { val: 1 } } as { ? };\n  try {\n    let m = o.get(\"inner\").unwrap() as { val: str };\n    println(\"not reached\", m);\n  } catch e {\n    println(e.message);\n  }\n}\n", ".val"},
+	{"element-of-element-of-field", "fn main() {\n  try {\n    let m = \"{\\\"rows\\\": [[1, 2], [3, \\\"x\\\"]]}\".parse_json() as { rows: [[int]] };\n    println(\"not reached\", m);\n  } catch e {\n    println(e.message);\n  }\n}\n", "`.rows[1][1]`"},
+	{"field-of-field-of-element", "fn main() {\n  try {\n    let m = \"[{\\\"inner\\\": {\\\"val\\\": 1}}, {\\\"inner\\\": {\\\"val\\\": \\\"s\\\"}}]\".parse_json() as [{ inner: { val: int } }];\n    println(\"not reached\", m);\n  } catch e {\n    println(e.message);\n  }\n}\n", "`[1].inner.val`"},
 	{"second-element", "fn main() {\n  let o = new { l: [?1, ?2] } as { ? };\n  try {\n    let m = o.get(\"l\").unwrap() as [?str];\n    println(\"not reached\", m);\n  } catch e {\n    println(e.message);\n  }\n}\n", "[0]"},
 }
 
